@@ -138,6 +138,14 @@ def _(value: float):
     return real_repr(value)
 
 
+@customize_repr
+def _(value: complex):
+    if not (math.isfinite(value.real) and math.isfinite(value.imag)):
+        # repr() contains the bare names inf / nan which are not valid python code
+        return f'complex("{real_repr(value)}")'
+    return real_repr(value)
+
+
 def sort_set_values(set_values):
     is_sorted = False
     try:
